@@ -42,7 +42,7 @@ Fixpoint strip (p s : list ascii) : option (list ascii) :=
   end.
 Definition has_prefix (p s : list ascii) : bool := match strip p s with Some _ => true | None => false end.
 Fixpoint skip_spaces (s : list ascii) : list ascii :=
-  match s with " " :: s' => skip_spaces s' | _ => s end.
+  match s with c :: s' => if Ascii.eqb c " " then skip_spaces s' else s | [] => [] end.
 Fixpoint take_while (f : ascii -> bool) (s : list ascii) : list ascii * list ascii :=
   match s with
   | c :: s' => if f c then let '(a, r) := take_while f s' in (c :: a, r) else ([], s)
@@ -93,8 +93,8 @@ Fixpoint code_end (s : list ascii) : option (list ascii * list ascii) :=
   | [] => None
   | c :: s' =>
     match (if Ascii.eqb c "%" then match s' with
-                                    | "}" :: r => match r with d :: _ => if is_ws d then Some r else None | [] => Some r end
-                                    | _ => None end
+                                    | e :: r => if Ascii.eqb e "}" then match r with d :: _ => if is_ws d then Some r else None | [] => Some r end else None
+                                    | [] => None end
            else None) with
     | Some r => Some ([], r)
     | None => match code_end s' with Some (a, r) => Some (c :: a, r) | None => None end
@@ -159,94 +159,110 @@ Definition union_body (s : list ascii) : option (list ascii * list ascii) :=
   end.
 
 Definition errtok : tok := mkTok LxError [] [].
+Definition is_union (k : lkind) : bool := match k with LxUnion => true | _ => false end.
 
-(* rootState and the states it dispatches to.  carry: bytes consumed since the start of the current word
-   (only "%" after a directive that is no keyword). *)
+(* One visit of rootState (with the states it dispatches to): either the lexer stops with some last tokens and a
+   tail behaviour, or it emits some tokens and returns to rootState on the rest of the input.
+   carry: bytes consumed since the start of the current word (only "%" after a directive that is no keyword). *)
+Inductive step_result :=
+| Done (ts : list tok) (tl : tail)
+| Cont (ts : list tok) (carry : list ascii) (rest : list ascii).
+
+Definition lex_step (carry : list ascii) (s : list ascii) : step_result :=
+  let emit := fun (k : lkind) (v : list ascii) (r : list ascii) => Cont [mkTok k v r] [] r in
+  if has_prefix ["/"; "/"] s then Cont [] [] (after_line s)
+  else if has_prefix ["/"; "*"] s then
+    match block_comment false (skipn 2 s) with
+    | Some r => Cont [] [] r
+    | None => Done [] ErrorForEver                     (* "comment do not has" ...: the error is re-sent for ever *)
+    end
+  else
+  match s with
+  | [] => Done [mkTok LxEOF [] []] Closed
+  | c :: r =>
+    if Ascii.eqb c "%" then
+      let other :=
+        match directive_word r with
+        | Some (k, r') =>
+          if is_union k then
+            match union_body r' with
+            | Some (v, r'') => emit LxUnion v r''
+            | None => Done [errtok] Closed
+            end
+          else emit k (carry ++ ["%"]) r'
+        | None => Cont [] (carry ++ ["%"]) r            (* no keyword: the "%" stays in the current word *)
+        end in
+      match r with
+      | d :: r' =>
+        if Ascii.eqb d "%" then emit LxSection (carry ++ ["%"; "%"]) r'
+        else if Ascii.eqb d "{" then
+          match code_end r' with
+          | Some (v, r'') => emit LxCodeQuote v r''
+          | None => Done [errtok] Closed
+          end
+        else other
+      | [] => other
+      end
+    else if Ascii.eqb c "$" then
+      match r with
+      | d :: r' =>
+        if Ascii.eqb d "$" then emit LxActionSelf (carry ++ ["$"; "$"]) r'
+        else if is_digit d then let '(ds, r'') := take_while is_digit r' in emit LxActionN (carry ++ "$" :: d :: ds) r''
+        else match accept_alpha_word w_accept r' with
+             | Some r'' => emit LxActionAccept (carry ++ ["$"]) r''
+             | None =>
+               match accept_alpha_word w_end r' with
+               | Some r'' => emit LxActionEnd (carry ++ ["$"]) r''
+               | None => Cont [errtok] (carry ++ ["$"; d]) r'      (* the lexer goes on after this error *)
+               end
+             end
+      | [] => Done [errtok; mkTok LxEOF [] []] Closed
+      end
+    else if Ascii.eqb c "|" then emit LxOr (carry ++ [c]) r
+    else if Ascii.eqb c ":" then emit LxDefine (carry ++ [c]) r
+    else if Ascii.eqb c ";" then emit LxEnd (carry ++ [c]) r
+    else if is_ws c then Cont [] [] r
+    else if Ascii.eqb c quote then
+      match r with
+      | d :: r' =>
+        if Ascii.eqb d bslash then
+          match r' with
+          | e :: r'' => if Ascii.eqb e quote then emit LxChar [quote] r'' else Done [errtok] Closed
+          | [] => Done [errtok] Closed
+          end
+        else match r' with
+             | e :: r'' => if Ascii.eqb e quote then emit LxChar [d] r'' else Done [errtok] Closed
+             | [] => Done [errtok] Closed
+             end
+      | [] => Done [errtok] Closed
+      end
+    else if Ascii.eqb c dquote then
+      match string_body r with
+      | Some (v, r') => emit LxString v r'
+      | None => Done [errtok] Closed
+      end
+    else if is_letter c || Ascii.eqb c "_" then
+      let '(cs, r') := take_while is_idch r in emit LxIdentifier (carry ++ c :: cs) r'
+    else if Ascii.eqb c "<" then emit LxLAngle (carry ++ [c]) r
+    else if Ascii.eqb c ">" then emit LxRAngle (carry ++ [c]) r
+    else if is_digit c then let '(ds, r') := take_while is_digit r in emit LxNumber (carry ++ c :: ds) r'
+    else if Ascii.eqb c "-" then let '(ds, r') := take_while is_digit r in emit LxNumber (carry ++ c :: ds) r'
+    else if Ascii.eqb c "{" then
+      match braces 1 r with
+      | Some (a, r') => emit LxActionQuote (carry ++ c :: a) r'
+      | None => Done [errtok] Closed
+      end
+    else Done [errtok] Closed
+  end.
+
+(* the run loop of the lexer goroutine *)
 Fixpoint lex_root (fuel : nat) (carry : list ascii) (s : list ascii) : list tok * tail :=
   match fuel with
   | 0 => ([mkTok LxFuel [] s], Closed)
   | S f =>
-    let emit := fun (k : lkind) (v : list ascii) (r : list ascii) =>
-                  let '(ts, tl) := lex_root f [] r in (mkTok k v r :: ts, tl) in
-    if has_prefix ["/"; "/"] s then lex_root f [] (after_line s)
-    else if has_prefix ["/"; "*"] s then
-      match block_comment false (skipn 2 s) with
-      | Some r => lex_root f [] r
-      | None => ([], ErrorForEver)                     (* "comment do not has" ...: the error is re-sent for ever *)
-      end
-    else
-    match s with
-    | [] => ([mkTok LxEOF [] []], Closed)
-    | c :: r =>
-      if Ascii.eqb c "%" then
-        match r with
-        | "%" :: r' => emit LxSection (carry ++ ["%"; "%"]) r'
-        | "{" :: r' =>
-          match code_end r' with
-          | Some (v, r'') => emit LxCodeQuote v r''
-          | None => ([errtok], Closed)
-          end
-        | _ =>
-          match directive_word r with
-          | Some (LxUnion, r') =>
-            match union_body r' with
-            | Some (v, r'') => emit LxUnion v r''
-            | None => ([errtok], Closed)
-            end
-          | Some (k, r') => emit k (carry ++ ["%"]) r'
-          | None => lex_root f (carry ++ ["%"]) r       (* no keyword: the "%" stays in the current word *)
-          end
-        end
-      else if Ascii.eqb c "$" then
-        match r with
-        | "$" :: r' => emit LxActionSelf (carry ++ ["$"; "$"]) r'
-        | d :: r' =>
-          if is_digit d then let '(ds, r'') := take_while is_digit r' in emit LxActionN (carry ++ "$" :: d :: ds) r''
-          else match accept_alpha_word w_accept r' with
-               | Some r'' => emit LxActionAccept (carry ++ ["$"]) r''
-               | None =>
-                 match accept_alpha_word w_end r' with
-                 | Some r'' => emit LxActionEnd (carry ++ ["$"]) r''
-                 | None => let '(ts, tl) := lex_root f (carry ++ ["$"; d]) r' in (errtok :: ts, tl)    (* the lexer goes on after this error *)
-                 end
-               end
-        | [] => ([errtok; mkTok LxEOF [] []], Closed)
-        end
-      else if Ascii.eqb c "|" then emit LxOr (carry ++ [c]) r
-      else if Ascii.eqb c ":" then emit LxDefine (carry ++ [c]) r
-      else if Ascii.eqb c ";" then emit LxEnd (carry ++ [c]) r
-      else if is_ws c then lex_root f [] r
-      else if Ascii.eqb c quote then
-        match r with
-        | d :: r' =>
-          if Ascii.eqb d bslash then
-            match r' with
-            | e :: r'' => if Ascii.eqb e quote then emit LxChar [quote] r'' else ([errtok], Closed)
-            | [] => ([errtok], Closed)
-            end
-          else match r' with
-               | e :: r'' => if Ascii.eqb e quote then emit LxChar [d] r'' else ([errtok], Closed)
-               | [] => ([errtok], Closed)
-               end
-        | [] => ([errtok], Closed)
-        end
-      else if Ascii.eqb c dquote then
-        match string_body r with
-        | Some (v, r') => emit LxString v r'
-        | None => ([errtok], Closed)
-        end
-      else if is_letter c || Ascii.eqb c "_" then
-        let '(cs, r') := take_while is_idch r in emit LxIdentifier (carry ++ c :: cs) r'
-      else if Ascii.eqb c "<" then emit LxLAngle (carry ++ [c]) r
-      else if Ascii.eqb c ">" then emit LxRAngle (carry ++ [c]) r
-      else if is_digit c then let '(ds, r') := take_while is_digit r in emit LxNumber (carry ++ c :: ds) r'
-      else if Ascii.eqb c "-" then let '(ds, r') := take_while is_digit r in emit LxNumber (carry ++ c :: ds) r'
-      else if Ascii.eqb c "{" then
-        match braces 1 r with
-        | Some (a, r') => emit LxActionQuote (carry ++ c :: a) r'
-        | None => ([errtok], Closed)
-        end
-      else ([errtok], Closed)
+    match lex_step carry s with
+    | Done ts tl => (ts, tl)
+    | Cont ts carry' rest => let '(ts', tl) := lex_root f carry' rest in (ts ++ ts', tl)
     end
   end.
 
